@@ -232,6 +232,45 @@ def packing_monitor(case, log, ctx):
     return sent, delivered
 
 
+def gen_stall_case(real, rng, cid, n, mtu, retry):
+    """n empty messages sent with a retry mode while the link is dark, then a stalled frame longer than the keep-alive interval: all of
+    them are due for a resend in the same tick - the resend loop, too, must close a datagram at 255 messages"""
+    lines = ["case %s" % cid]
+    run = connlib.CaseRun(real, log=[], snapshots=False)
+
+    def emit(line):
+        lines.append(line)
+        return run.exec(line)
+    try:
+        t = connlib.BASE_T
+        emit("now %d" % t)
+        emit("mtu %d" % mtu)
+        emit("new a client")
+        emit("new b server")
+        for e in "ab":
+            emit("set %s key=%s status=2 si=16 ka=96 ot=4096" % (e, connlib.KEY.hex()))
+        seed = rng.randint(1, 10 ** 6)
+        for i in range(n):
+            emit("send a len=0 seed=%d retry=%d cb=-" % (seed + i, retry))
+        for _ in range(3):                      # first transmissions: lost
+            t += 17
+            emit("build a t=%d" % t)
+        t += rng.choice([120, 300])             # the stalled frame
+        for _ in range(6):                      # resends: delivered, acknowledged
+            o = emit("build a t=%d" % t)
+            if o and o[0].startswith("pkt"):
+                emit("recv b t=%d d=@a:%d" % (t, len(run.eps["a"]["emits"]) - 1))
+            o = emit("build b t=%d" % t)
+            if o and o[0].startswith("pkt"):
+                emit("recv a t=%d d=@b:%d" % (t, len(run.eps["b"]["emits"]) - 1))
+            t += 17
+        emit("dump a")
+    finally:
+        run.close()
+    lines.append("end")
+    return lines
+
+
 def run(ctx):
     real = connlib.Real()
     rng = ctx.rng
@@ -273,6 +312,9 @@ def run(ctx):
         else:              # everything, lossy
             pcases.append(connlib.gen_two_party(real, rng, "p%d" % i, mtu=mtu, steps=40, dumps=0.2,
                                                 sizes=(connlib.size_pool(mtu) + connlib.SMALL * 3)))
+    for j, nmsg in enumerate(ctx.scale([256, 300], [255, 256, 257, 300, 511, 600])):
+        for retry in (1, -1):
+            pcases.append(gen_stall_case(real, rng, "st%d_%d" % (j, retry + 1), nmsg, rng.choice([1500, 1400]), retry))
     real2 = connlib.Real()
     logs, bad = connlib.run_cases(ctx, real2, pcases, connlib.make_post(post_fn), "Conn(build/packing)", RULE,
                                   lambda c, o: any(" count=" in x and int(x.split("count=")[1].split()[0]) > 1 for x in o))
